@@ -452,6 +452,16 @@ def check(ctx):
     ctx.ob('C05.R6.no-noreturn', 'search-thread', n_nr == 0,
            'no exit/abort/terminate/throw in the %d functions reachable from %s' % (len(t_search), entry.name),
            site=entry.loc())
+    # ---- R7 the answer comes: a stop that arrived is not lost (C06.R2), so a search without a limit of its own still ends ---------
+    from rules.common import SubCtx as _SC6
+    import props.C06 as c06
+    sub6 = _SC6(ctx)
+    c06.check(sub6)
+    bad6 = [r for r in sub6.results if not r[2] and (r[0].startswith('C06.R2') or r[0].startswith('C06.R3') or r[0].startswith('C06.R0'))]
+    ctx.ob('C05.R7.stop-ends-the-search', 'stop flag', not bad6,
+           'exactly one bestmove needs the search to end: a stop is never overwritten and is polled on every node visit (C06.R0/R2/R3)%s'
+           % ('' if not bad6 else ' — refuted: ' + '; '.join('%s %s at %s' % (r[0], r[1], r[4]) for r in bad6[:3])),
+           site=bad6[0][4] if bad6 else 'engine/search.cpp')
     ctx.note('not decided: legality of the generated list (C01), of GUI-supplied searchmoves, and timing')
 
 
